@@ -80,6 +80,23 @@ func c16NameConfigs() []c16Cfg {
 						sql := fmt.Sprintf("SELECT %sid AS id, %sloc AS loc FROM stream %s %s meta %s ON %s%s = %s%s", sq, tq, sa, jt, ta, sq, sf, tq, tf)
 						out = append(out, c16Cfg{Name: "names", SQL: strings.Join(strings.Fields(sql), " "), Left: left, Keys: []string{tf}, SKeys: []string{sf}})
 					}
+					if sf == "dev" && tf == "dev" {
+						// the JOIN keywords in other spellings and letter cases (they are not lexer keywords)
+						for _, sp := range []struct {
+							jt, on string
+							left   bool
+						}{{"join", "on", false}, {"left join", "on", true}, {"Left Join", "On", true}, {"INNER JOIN", "ON", false}, {"inner join", "on", false}, {"LEFT OUTER JOIN", "ON", true}, {"left outer join", "on", true}} {
+							sq, tq := "", "meta."
+							if sa != "" {
+								sq = sa + "."
+							}
+							if ta != "" {
+								tq = ta + "."
+							}
+							sql := fmt.Sprintf("SELECT %sid AS id, %sloc AS loc FROM stream %s %s meta %s %s %s%s = %s%s", sq, tq, sa, sp.jt, ta, sp.on, sq, sf, tq, tf)
+							out = append(out, c16Cfg{Name: "names", SQL: strings.Join(strings.Fields(sql), " "), Left: sp.left, Keys: []string{tf}, SKeys: []string{sf}})
+						}
+					}
 				}
 			}
 		}
